@@ -137,8 +137,10 @@ func famRegs2(r *rng) []string {
 	res = append(res, "for "+p+" = 2 { "+asg+"; println("+p+") }", "println("+p+")")
 	// 3. a loop register written to an OUTER variable from inside a function as the first use of that name in the call
 	// (the value stored must be the integer of that moment, not the live register), then loops that reuse the slot
-	res = append(res, "idx = -1", "find = func(a, x){ for i = len(a) { if a[i] == x { idx = i; break } }; idx }",
-		"println(find([5, 7, 9, 7], 7), idx)", "s = 0; for j = 100 { s = s + j }; println(s, idx)",
+	res = append(res, "idx = -1", "find = func(a, x){ for i = len(a) { if a[i] == x { idx = i } } }", // the loop goes on after the write
+		"find([5, 7, 9, 11], 7)", "println(idx)",
+		"hit = -1", "scan = func(a, x){ for i = len(a) { if a[i] == x { hit = i; break } }; t = 0; for j = 100 { t = t + j }; t }", // the slot is reused
+		"println(scan([5, 7, 9, 11], 9), hit)",
 		"last = func(a){ for k = len(a) { seen = k }; 0 }; seen = -1; last([1, 2, 3]); for m = 50 { m }; println(seen)")
 	return res
 }
